@@ -8,8 +8,17 @@ History: until /repo commits e2c987e (events of one step sorted in the direction
 when iterating backward) and `backward_light_label` (a shadow exit labelled "Umbra entry").  The code was fixed, the
 model follows it, the general statements are now theorems (`C10.stream_chronological_backward`,
 `C10.label_prev_compare`, `C10.label_light`), and the same inputs are kept here as positive regression witnesses.
+
+Until /repo commit d3db55e (visibility converts a copy of each point to the station frame) the property was also false of
+`TopocentricFrame.visibility` with a listener created without a frame: the yielded point was re-framed IN PLACE while still
+`listener.prev`, so `ApsideListener()` compared a topocentric range rate (prev) with the radial velocity in the orbit's
+own frame (new state) and fired 1 µs after every in-view sample.  The model then gave every listener a fixed frame and the
+defect was visible to the oracle only; now `frame=None` is part of the model (`Listen.Spec`), the general statement is
+`C10.visibility_stream_spec` / `C10.frameless_reads_own_frame`, and the inputs on which the old code failed are the
+positive regression witnesses `visibility_frameless_*` below (the harness replays them on the real method on every run).
 -/
 import BeyondVerif.Model.ListenKinds
+import BeyondVerif.Props.C10
 namespace BeyondVerif.C10W
 open BeyondVerif.Listen
 
@@ -45,5 +54,68 @@ produces two events, one dated at that sample (it is the sample object itself, w
 theorem exact_zero_at_sample_two_events :
     iter [lin 10] [none] [0, 10, 20] =
       [⟨0, none⟩, ⟨10, some (0, "x")⟩, ⟨10, some (0, "x")⟩, ⟨11, some (0, "x")⟩, ⟨20, none⟩] := by decide +kernel
+
+/-! ### `visibility` with `frame=None` listeners (regression witnesses for d3db55e) -/
+
+/-- station in view all along (elevation 1), topocentric range rate −5 -/
+def staInView : Chan := ⟨fun _ => 1, fun _ => 0, fun _ => -5, fun _ => 0, 0⟩
+
+/-- radial velocity in the orbit's own frame constant +5 (no apsis anywhere) while the topocentric range rate is −5:
+`visibility(events=[ApsideListener()])` yields the three samples and NO event.  (Before d3db55e the real method yielded
+`0, 1 Periapsis, 1000, 1001 Periapsis, 2000`: a bogus event 1 µs after every in-view sample.) -/
+theorem visibility_frameless_no_spurious :
+    visibility ⟨fun _ => 0, fun _ => 0, fun _ => 5, fun _ => 0, 0⟩ [(.apside, none)] staInView false true
+      [none, none, none] [0, 1000, 2000] = [⟨0, none⟩, ⟨1000, none⟩, ⟨2000, none⟩] := by decide +kernel
+
+/-- own radial velocity `t − 500`: the one genuine periapsis, at 500 µs, is reported (before d3db55e it was dated 1 µs
+after the first sample, `prev` being read as the topocentric −5). -/
+theorem visibility_frameless_genuine :
+    visibility ⟨fun _ => 0, fun _ => 0, fun t => t - 500, fun _ => 0, 0⟩ [(.apside, none)] staInView false true
+      [none, none, none] [0, 1000] = [⟨0, none⟩, ⟨500, some (0, "Periapsis")⟩, ⟨1000, none⟩] := by decide +kernel
+
+/-- `NodeListener()` next to the station's own listeners: latitude in the own frame `t − 1500`, elevation `2500 − t`:
+the ascending node at 1500 (in view), the LOS at 2500 from the station's AOS/LOS listener (index 1), and the sample at
+3000 (below the horizon) dropped. -/
+theorem visibility_frameless_node_and_los :
+    visibility ⟨fun t => t - 1500, fun _ => 1, fun _ => 0, fun _ => 0, 0⟩ [(.node, none)]
+      ⟨fun t => 2500 - t, fun _ => -1, fun _ => 0, fun _ => 0, 0⟩ false true [none, none, none] [0, 1000, 2000, 3000] =
+      [⟨0, none⟩, ⟨1000, none⟩, ⟨1500, some (0, "Asc Node")⟩, ⟨2000, none⟩, ⟨2500, some (1, "LOS")⟩] := by decide +kernel
+
+/-! ### open finding C10-penumbra-half-angle: COUNTER-witness on the formulas translated from the source -/
+
+theorem sqrt_16_25 : Real.sqrt (1 - (3 / 5 : ℝ) ^ 2) = 4 / 5 := by
+  rw [show (1 - (3 / 5 : ℝ) ^ 2) = (4 / 5) ^ 2 by norm_num]
+  exact Real.sqrt_sq (by norm_num)
+
+theorem sqrt_9_25 : Real.sqrt (1 - (4 / 5 : ℝ) ^ 2) = 3 / 5 := by
+  rw [show (1 - (4 / 5 : ℝ) ^ 2) = (3 / 5) ^ 2 by norm_num]
+  exact Real.sqrt_sq (by norm_num)
+
+/-- A geometry (in units where everything is rational: R_sun = 7/2, R_body = 1/2, |x_sun| = 5, |x_sat| = 5,
+x_sun · x_sat = −15, i.e. 3 behind the body and 4 off the axis) for which `LightListener("penumbra")` — the formulas
+of `Generated/LightSrc`, translated from the current source — reports FULL LIGHT (+1), although the point lies inside the
+penumbra cone of the property text, the cone tangent to the body with `sin α = (R_sun + R_body) / d = 4/5`
+(bound 29/6 ≥ 4 at that distance; the code's cone, `sin α = (R_sun − R_body) / d = 3/5`, stops at 23/8 < 4).
+This is the penumbra clause of C10 falsified by the code: the listener uses the umbra half-angle for both cones.
+When /repo is fixed (`proposed_fixes/C10-penumbra-half-angle.diff`) this theorem stops checking and the model follows. -/
+theorem penumbra_half_angle_witness :
+    R.lightValue true (7 / 2) (1 / 2) 5 5 (-15) = 1 ∧
+      (5 : ℝ) * Real.sqrt (1 - (3 / 5 : ℝ) ^ 2) ≤ C10.coneBound ((7 / 2 + 1 / 2) / 5) (1 / 2) 3 1 := by
+  constructor
+  · have key := C10.light_geometry true (7 / 2) (1 / 2) 5 5 (-15) (by norm_num) (by norm_num)
+      (by rw [abs_of_neg (by norm_num)]; norm_num) (by norm_num) (by norm_num)
+    have e1 : ((7 / 2 : ℝ) - 1 / 2) / 5 = 3 / 5 := by norm_num
+    have e2 : -(-15 : ℝ) / (5 * 5) = 3 / 5 := by norm_num
+    simp only [e1, e2] at key
+    rcases C10.light_value_pm_one true (7 / 2) (1 / 2) 5 5 (-15) with h | h
+    · exfalso
+      have h2 := (key.1 h).2.1
+      unfold C10.coneBound at h2
+      rw [sqrt_16_25] at h2
+      norm_num at h2
+    · exact h
+  · unfold C10.coneBound
+    rw [sqrt_16_25, show ((7 / 2 + 1 / 2 : ℝ) / 5) = 4 / 5 by norm_num, sqrt_9_25]
+    norm_num
 
 end BeyondVerif.C10W
